@@ -15,7 +15,19 @@ def main() -> int:
         for b in bad:
             print("FORBIDDEN:", b)
         print("coq build:", "ok" if ok else "FAILED")
-        return 0 if ok and not bad else 1
+        # translator tie: regenerate Gallina from the source under VERIF_REPO and check the committed coq/gen/Equiv*.v against it
+        import shutil
+        from harness import gen_targets
+        gen_ok = True
+        for pid, (name, equiv, _, _) in sorted(gen_targets.SPECS.items()):
+            wd = common.WORK / f"build-gen-{pid}"
+            r = common.gen_equiv_compile(wd, name, lambda pid=pid: gen_targets.generate(pid), equiv)
+            shutil.rmtree(wd, ignore_errors=True)
+            print(f"coq/gen/{equiv} against {name} generated from {common.REPO}:", f"ok ({len(r['theorems'])} theorems, {r['wall_s']}s)" if r["ok"] else "FAILED")
+            for b in r["broken"]:
+                print("  ", b[:1500])
+            gen_ok = gen_ok and r["ok"]
+        return 0 if ok and not bad and gen_ok else 1
     if cmd == "coqchk":
         # independent re-check of every compiled property file (and all it depends on) + the axioms they rely on
         import subprocess
